@@ -9,7 +9,7 @@
 use super::{PropResult, RunCfg};
 use crate::json::J;
 use crate::prng::{fnv1a, splitmix, Rng};
-use crate::report::{run_parallel, CaseOut, Verdict, Violation};
+use crate::report::{CaseOut, Verdict, Violation};
 use crate::spy::SpyTerm;
 use indicatif::verif_hooks as vh;
 use indicatif::{MultiProgress, ProgressBar, ProgressDrawTarget, ProgressStyle};
@@ -629,8 +629,8 @@ pub fn run(cfg: &RunCfg) -> PropResult {
         let ns = if cfg.thorough { 60_000 } else { 1_500 };
         let nl = if cfg.thorough { 6_000 } else { 200 };
         // every scenario brings 3-5 threads of its own
-        let mut r = run_parallel(ns, 6, |i| stress_case(cfg.seed, i));
-        r.merge(run_parallel(nl, 8, |i| lifecycle_case(cfg.seed, i)));
+        let mut r = crate::report::run_parallel_tagged('s', ns, 6, |i| stress_case(cfg.seed, i));
+        r.merge(crate::report::run_parallel_tagged('l', nl, 8, |i| lifecycle_case(cfg.seed, i)));
         r
     };
     PropResult {
